@@ -96,10 +96,21 @@ class Engine:
         self.frames = None
         self.assumptions_used = []
         self.covers = []  # (name, pc) reachability checks
+        self.hooks_fired = set()
 
     # ------------------------------------------------------------------
     # helpers
     # ------------------------------------------------------------------
+    def assigned_names(self, fi):
+        s = getattr(fi, "_assigned", None)
+        if s is None:
+            s = set()
+            for n in ast.walk(fi.node):
+                if isinstance(n, ast.Name) and isinstance(n.ctx, ast.Store):
+                    s.add(n.id)
+            fi._assigned = s
+        return s
+
     def where(self, node):
         return "%s:%s" % (self.func.path if self.func else "?", getattr(node, "lineno", "?"))
 
@@ -145,6 +156,10 @@ class Engine:
         return None
 
     def spec_shape(self, s):
+        if s is None:
+            d = z3.Int(ctx().fresh("dim"))
+            ctx().add_fact(d >= 0)
+            return d
         if isinstance(s, int):
             return z3.IntVal(s)
         if z3.is_expr(s):
@@ -249,6 +264,17 @@ class Engine:
         return st is None or z3.is_false(z3.simplify(st.pc))
 
     def exec_stmt(self, s, st):
+        st = self.exec_stmt0(s, st)
+        c = self.cur_contract
+        if c is not None and c.hooks and self.inline_depth == 0 and st is not None and isinstance(s, (ast.Assign, ast.AugAssign, ast.Expr)):
+            h = c.hooks.get(ast.unparse(s))
+            if h:
+                for k, node in h.items():
+                    st.env[k] = self.ev_spec(node, st, pre=self.entry_state)
+                self.hooks_fired.add(ast.unparse(s))
+        return st
+
+    def exec_stmt0(self, s, st):
         m = getattr(self, "st_" + type(s).__name__, None)
         if m is None:
             ctx().note("unmodelled-stmt", self.where(s), type(s).__name__)
@@ -440,8 +466,8 @@ class Engine:
             def at_head(stt):
                 # expose the upcoming index under the target name for invariants
                 self.assign(s.target, stt.env[idx], stt)
-                ctx_fact = stt.env[idx].get_num().r >= lo
-                return ctx_fact
+                i = stt.env[idx].get_num().r
+                return z3.And(i >= lo, i <= z3.If(hi >= lo, hi, lo))
 
             return self.run_loop(s, st, guard, pre_body, extra_mod=[idx], head_fact=at_head, extra_names=_target_names(s.target))
         seq = self.ev(it, st)
@@ -482,6 +508,9 @@ class Engine:
         # 1. invariant on entry
         if head_fact:
             head_fact(st)
+        if spec:
+            for gk, gexpr in spec.ghost.items():
+                st.env["ghost." + gk] = self.ev_spec(ast.parse(gexpr, mode="eval").body, st, pre=self.entry_state)
         if spec:
             for inv in spec.invariants:
                 g = self.eval_clause(inv, st, pre=self.entry_state, polarity=1)
@@ -552,7 +581,8 @@ class Engine:
                     self.oblige("%s::inv-preserved::%s" % (tag, inv.name), b, gl, "inv-preserved", inv.top, spec.props, s, inv)
                 if v0 is not None:
                     v1 = [self.ev_spec(v, b, pre=self.entry_state).get_num() for v in spec.variant]
-                    self.oblige("%s::variant-decreases" % tag, b, lex_decrease(v0, v1), "variant", False, spec.props, s)
+                    g_next = guard(b.copy())  # only iterations that continue need to decrease
+                    self.oblige("%s::variant-decreases" % tag, b, z3.Implies(g_next, lex_decrease(v0, v1)), "variant", False, spec.props, s)
         # 5. after loop: normal exit + breaks  (else-clause ignored when absent)
         if s.orelse:
             exit_st = self.exec_block(s.orelse, exit_st)
@@ -674,6 +704,8 @@ class Engine:
             return Val(py=("module", nm))
         if nm in ("True", "False"):
             return Val.of_bool(nm == "True")
+        if nm == "ghost":
+            return Val(ref="ghost")
         if nm == "logger":
             return Val(py=("module", "logging"))
         if self.index.function(nm) is not None:
@@ -685,7 +717,9 @@ class Engine:
         if nm in npmodel.BUILTINS:
             return Val(py=("builtin", nm))
         if self.spec is not None:
-            raise Undecided("unknown name %r in contract expression" % nm)
+            if self.func is not None and nm in self.assigned_names(self.func):
+                return Val.fresh("unbound_" + nm)
+            raise Undecided("unknown name %r in contract expression (%s)" % (nm, self.func.qual if self.func else "?"))
         ctx().note("unbound-name", self.where(e), nm)
         return self.lookup(st, "$global." + nm)
 
